@@ -190,10 +190,14 @@ def build_config(case, tmp, slp):
         early_stopping_patience=2,
     )
     cfg = TrainingJobConfig(data_config=d, model_config=m, trainer_config=t).to_sleap_nn_cfg()
-    if case["kind"] == "plain":
+    if case["kind"].startswith("plain"):
         y = os.path.join(tmp, "user_config.yaml")
         OmegaConf.save(cfg, y)
         cfg = OmegaConf.load(y)  # plain YAML-loaded DictConfig (no schema attached)
+        if case["kind"] == "plain-null":
+            # a hand-written YAML leaves optional values unset (as the shipped sample configs and the repo's own test
+            # fixture do): the trainer fills them in later, the INITIAL file must still show what was supplied
+            cfg.data_config.preprocessing.scale = None
     return cfg, out, chunks
 
 
@@ -381,6 +385,11 @@ def grid(tier):
     if tier != "quick":
         twice = [{"model": mt, "fw": fw, "wandb": wb, "ckpt": True, "kind": "plain", "runs": 2} for mt in MODEL_TYPES for fw in ("torch_dataset", "torch_dataset_np_chunks") for wb in (False, True)]
     lowmem = lowmem + twice
+    # plain configurations that leave optional values null
+    sparse = [{"model": MODEL_TYPES[(i + 1) % 4], "fw": fw, "wandb": wb, "ckpt": True, "kind": "plain-null"} for i, (fw, wb) in enumerate([("torch_dataset", True), ("torch_dataset_np_chunks", False)])]
+    if tier != "quick":
+        sparse = [{"model": mt, "fw": fw, "wandb": wb, "ckpt": True, "kind": "plain-null"} for mt in MODEL_TYPES for fw in ("torch_dataset", "torch_dataset_np_chunks") for wb in (False, True)]
+    lowmem = lowmem + sparse
     if tier == "quick":
         # pairwise-complete 16-run sub-grid: all fw x wandb x ckpt x kind combinations, model types alternating
         out = []
